@@ -17,7 +17,7 @@ from mzverif.core import Sub, call, require
 
 ID = "C06"
 LEVEL = "exploration"
-TECHNIQUE = "per-region exhaustive enumeration (9 coordinate x 216 adjacency and 9 x 1008 path configurations) on a pool of mazes (incl. corridors whose fork-to-fork steps span 130..255 moves) + pairwise-covering and uniformly sampled full configurations; oracle = independent token-stream decoder configured only from the parameter tuple"
+TECHNIQUE = "per-region exhaustive enumeration (9 coordinate x 216 adjacency and 9 x 1008 path configurations) on a pool of mazes (incl. corridors whose fork-to-fork steps span 130..255 moves) + pairwise-covering and uniformly sampled full configurations; oracle = independent token-stream decoder configured only from the parameter tuple; the same check on several cases at once, one thread each (interleavings sampled)"
 RULE = (
     "case = (tokenizer parameter dict, maze = bits + solution + kind). The harness builds the tokenizer from the parameters; the "
     "decoder checks delimiters, vocabulary membership, the adjacency multiset (subset x orientation x connection/wall flag), origin, "
@@ -261,4 +261,5 @@ def subs(tier: str):
         Sub("long-corridors", check, "exhaustive", cases=_corridor_cases(corridors)),
         Sub(f"pairwise-covering-{len(tuples)}-tuples-{total_pairs}-pairs", check, "exhaustive", cases=_pairwise_cases(pool), exhaustive_flag=False),
         Sub("uniform-full-configurations", check, "hypothesis", strategy=lambda: _uniform(8 if q else 14), examples=40 if q else 1500),
+        Sub("concurrent-threads", core.threaded(check), "hypothesis", strategy=core.threaded_strategy(lambda: _uniform(6 if q else 10)), examples=4 if q else 100, ambient=False),
     ]
